@@ -284,6 +284,9 @@ func main() {
 					}
 				}
 				cs = append(cs, &call{m: m, args: avs[0], kind: "error", script: map[string]any{"kind": "error"}})
+			} else {
+				// a oneway handler that fails: still no reply of any kind
+				cs = append(cs, &call{m: m, args: avs[0], kind: "oneway-error", script: map[string]any{"kind": "error"}})
 			}
 			return cs
 		}
@@ -320,7 +323,7 @@ func main() {
 		// an unknown method WITH arguments (i32 field 1 = 5, string field 2 = "xy"): the processor must
 		// consume them, or the next message on the connection is read out of their bytes
 		unknown := &call{kind: "raw", raw: mkMsg("noSuchMethod", 1, 77, []byte{8, 0, 1, 0, 0, 0, 5, 11, 0, 2, 0, 0, 0, 2, 'x', 'y', 0})}
-		alphabet := []*call{pick("ret_struct", "return"), pick("v0", "return"), pick("three", "throw"), pick("ret_string", "error"), pick("fire", "return"), pick("baseEcho", "return"), pick("incPing", "throw"), unknown}
+		alphabet := []*call{pick("ret_struct", "return"), pick("v0", "return"), pick("three", "throw"), pick("ret_string", "error"), pick("fire", "return"), pick("fire", "oneway-error"), pick("baseEcho", "return"), pick("incPing", "throw"), unknown}
 		depth := 2
 		if thorough {
 			depth = 3
